@@ -192,6 +192,8 @@ def gen_paint_doc(rng):
             arg = rng.choice(used_ids)
             is_shape = any(t[1] == arg and t[0] in PAINT_SHAPES for t in doc)
             body = decls(rng, True, rng.choice([1, 2]), own=is_shape)
-        if body:
+        if rng.random() < 0.12:
+            body = []                      # an empty rule (".b{}") is a rule like any other: it declares nothing
+        if body or kind != "*":
             sheet.append([kind, arg, body])
     return {"doc": doc, "sheet": sheet, "callerColor": rng.choice(["black", "teal"])}
